@@ -308,6 +308,7 @@ package fzf
 //@ ensures r0 == -1 || r0 >= 0
 //@ ensures r0 >= 0 ==> allDigits(s, firstSep(s, 0) < 0 ? len(s) : firstSep(s, 0)) && r0 == decVal(s, firstSep(s, 0) < 0 ? len(s) : firstSep(s, 0))
 //@ ensures r0 == -1 ==> (firstSep(s, 0) < 0 ? len(s) : firstSep(s, 0)) == 0 || !allDigits(s, firstSep(s, 0) < 0 ? len(s) : firstSep(s, 0))
+//@ ensures (firstSep(s, 0) < 0 ? len(s) : firstSep(s, 0)) == 0 ==> r0 == -1 -- an omitted parameter is not a number (38:2::R:G:B keeps its components in place)
 //@ use @"if i >= 0" firstSep_skip(s, 0, i >= 0 ? i : len(s))
 //@ loop 1
 //@   invariant 0 <= code && code == decVal(s, iter) && allDigits(s, iter)
@@ -451,6 +452,7 @@ package fzf
 //@ requires server != nil
 //@ effect call server.getHandler requires len(server.apiKey) == 0 || content_eq(bytesOf(apiKey), server.apiKey)
 //@ effect send server.actionChannel requires (len(server.apiKey) == 0 || content_eq(bytesOf(apiKey), server.apiKey)) && len(actions) > 0
+//@ assert @"actions, err := parseSingleActionList(" len(body) == contentLength -- what is parsed as actions is the announced Content-Length bytes of the body, nothing sent beyond them
 //@ loop 1
 //@   invariant 0 <= section && section <= 2 && 0 <= contentLength && contentLength <= 1048576 && (section == 2 ==> contentLength > 0)
 
@@ -933,11 +935,18 @@ package fzf
 //@ ensures r1 != nil ==> fresh(r1) && fresh(*r1) && len(*r1) > 0
 //@ ensures r1 != nil && r2 != nil ==> (*r1)[len(*r1)-1].offset[1] == nrunes(r0)
 //@ ensures len(r0) <= len(str) -- stripping never makes a line longer
+// (every sequence the scanner finds - OSC 8 hyperlinks and line-background sequences too, not only SGR - is interpreted:
+//  nseq counts sequences found, nic calls of interpretCode)
+//@ ghost nseq int
+//@ ghost nic int
+//@ ghost @"idx += end" nseq = nseq + 1
+//@ ghost @"newState := interpretCode(" nic = nic + 1
 // (that all offsets are ordered and within the text was proved too, but one loop obligation needed 8-10 s of
 //  solver time - too close to the limit to be claimed - so the clause is not part of the contract)
 //@ loop 1
 //@   invariant 0 <= prevIdx && prevIdx <= idx && idx <= len(str) && fresh(offsets) && 0 <= runeCount && runeCount <= prevIdx
 //@   invariant runeCount == bcount(&output) && (state != nil ==> len(offsets) > 0) && (pstate == nil || fresh(pstate))
+//@   invariant nseq == nic
 //@   invariant blen(&output) <= prevIdx
 //@ func Item.AsString
 //@ property C07
@@ -1005,7 +1014,7 @@ package fzf
 // item if there is one; the return value - which becomes the exit status 0 / 1 - says whether an item was printed.
 // Lines for --print-query, --expect and the print queue are not items.  (ghost nitems: item lines printed.)
 //@ func Terminal.output
-//@ property C07
+//@ property C07 C09
 //@ requires t != nil && t.printer != nil && t.merger != nil && mergerValid(t.merger)
 //@ ghost nitems int
 //@ ghost npq int
